@@ -39,6 +39,18 @@ var (
 	dFile    = "leases.yaml"
 )
 
+// setLayout selects the address plan. 0: the netfilter subnet is the upper part of the home LAN (host .6, router .1,
+// netfilter 192.168.0.4/30). 1: the netfilter subnet starts at the network address of the home LAN (host .2, router .5,
+// netfilter 192.168.0.0/30), so that the two subnets share their network address.
+func setLayout(i int) {
+	switch i {
+	case 1:
+		dHost, dRouter, dNetf = netip.MustParseAddr("192.168.0.2"), netip.MustParseAddr("192.168.0.5"), netip.MustParsePrefix("192.168.0.2/30")
+	default:
+		dHost, dRouter, dNetf = netip.MustParseAddr("192.168.0.6"), netip.MustParseAddr("192.168.0.1"), netip.MustParsePrefix("192.168.0.6/30")
+	}
+}
+
 func dIP(last byte) netip.Addr { return netip.AddrFrom4([4]byte{192, 168, 0, last}) }
 
 type dEvent struct {
@@ -52,6 +64,8 @@ func (e dEvent) String() string {
 	switch e.Kind {
 	case "tick":
 		return fmt.Sprintf("tick(%s)", e.Dur)
+	case "sleep":
+		return fmt.Sprintf("sleep(%s)", e.Dur)
 	case "seen":
 		return "frame(other-mac,192.168.0.3)"
 	case "capture", "uncapture":
@@ -79,7 +93,11 @@ func dhcpAlphabet() []dEvent {
 		dEvent{Kind: "decline", K: 0}, dEvent{Kind: "decline", K: 1}, dEvent{Kind: "release", K: 0},
 		dEvent{Kind: "capture", K: 0}, dEvent{Kind: "uncapture", K: 0},
 		dEvent{Kind: "tick", Dur: dLease + time.Second}, dEvent{Kind: "tick", Dur: time.Minute},
-		dEvent{Kind: "seen"})
+		dEvent{Kind: "seen"},
+		// two hours pass (longer than the session's purge deadline, shorter than the lease) and the minute ticker runs
+		dEvent{Kind: "tick", Dur: 2 * time.Hour},
+		// the lease time passes but the application has not called MinuteTicker yet (it does so once a minute)
+		dEvent{Kind: "sleep", Dur: dLease + time.Second})
 	return a
 }
 
@@ -147,6 +165,7 @@ func clientOf(chaddr []byte) int {
 type dhcpOpts struct {
 	mode   dhcp4.Mode
 	poison bool
+	layout int
 }
 
 type dhcpStep struct {
@@ -161,15 +180,18 @@ type dhcpResult struct {
 	predicted  bool
 	// for C18
 	files   [][]byte // content of the lease file after each step
-	written [][]byte // every image the lease file went through (in order)
-	atomic  []bool   // whether image i replaced image i-1 atomically (rename) or by an in-place write
+	written [][]byte // every complete image the lease file went through (in order)
+	ops     []vfs.Op // every operation on the in-memory device, in order
+	opsAt   []int    // len(ops) at the end of each step (opsAt[0]: after construction)
 	leases  []dhcp4.VerifLease
 	endTime int64     // virtual time at the end of the history (a restart happens at that time)
 	acked   []binding // acknowledged bindings according to the observer (the truth for C18)
 	maybe   []binding // bindings that may or may not survive
 }
 
-func dhcpNIC() *packet.NICInfo { return env.NIC("192.168.0.0/29", "192.168.0.6", "192.168.0.1", true) }
+func dhcpNIC() *packet.NICInfo {
+	return env.NIC(dHome.String(), dHost.String(), dRouter.String(), true)
+}
 
 func dhcpConfig(mode dhcp4.Mode) dhcp4.Config {
 	return dhcp4.Config{Mode: mode, NetfilterIP: dNetf, DNSServer: dDNS, LeaseFilename: dFile}
@@ -205,6 +227,7 @@ func leasesKey(l []dhcp4.VerifLease, now time.Time) string {
 // runDHCP executes one history.
 func runDHCP(alpha []dEvent, hist []int, o dhcpOpts) *dhcpResult {
 	res := &dhcpResult{}
+	setLayout(o.layout)
 	viol := func(class, sig, what string) {
 		if len(res.violations) < 4 {
 			res.violations = append(res.violations, class+"|"+sig+"|"+what)
@@ -221,6 +244,7 @@ func runDHCP(alpha []dEvent, hist []int, o dhcpOpts) *dhcpResult {
 		}
 		vsched.WaitIdle()
 		conn.Take()
+		res.opsAt = append(res.opsAt, len(vfs.Log()))
 		obs := newObserver()
 		shared := make([]byte, 2048)
 		failed := false
@@ -387,6 +411,9 @@ func runDHCP(alpha []dEvent, hist []int, o dhcpOpts) *dhcpResult {
 					vsched.Advance(int64(ev.Dur))
 					h.MinuteTicker(time.Unix(0, vsched.NowNanos()))
 					obs.expire(vsched.NowNanos())
+				case "sleep":
+					vsched.Advance(int64(ev.Dur))
+					obs.expire(vsched.NowNanos())
 				case "seen":
 					deliver(refnet.Eth(env.HostMAC, dOther, 0x0800, refnet.IP4(dIP(3), dHost, 17, refnet.UDP(40000, 40001, []byte("x")), refnet.IP4Opt{})))
 				}
@@ -514,6 +541,7 @@ func runDHCP(alpha []dEvent, hist []int, o dhcpOpts) *dhcpResult {
 			}
 			img, _ := vfs.Get(dFile)
 			res.files = append(res.files, append([]byte(nil), img...))
+			res.opsAt = append(res.opsAt, len(vfs.Log()))
 			step.snap = leasesKey(h.VerifLeases(), time.Unix(0, now)) + " | " + sessSnapshot(s, time.Unix(0, now))
 			res.steps = append(res.steps, step)
 			if si == len(hist)-1 {
@@ -549,12 +577,8 @@ func runDHCP(alpha []dEvent, hist []int, o dhcpOpts) *dhcpResult {
 		}
 		res.key = fmt.Sprintf("%s cur=%v/%v attack=%d cap=%v%v%v obs=%s | %s", leasesKey(res.leases, now), n1, n2, int64(attack.Sub(now)),
 			s.IsCaptured(dClients[0]), s.IsCaptured(dClients[1]), s.IsCaptured(dClients[2]), obs.key(), sessSnapshot(s, now))
-		for _, w := range vfs.Log() {
-			if w.Name == dFile { // writes to other names (temporary files) never change the image of the lease file
-				res.written = append(res.written, w.Data)
-				res.atomic = append(res.atomic, w.Kind == "rename")
-			}
-		}
+		res.ops = append([]vfs.Op(nil), vfs.Log()...)
+		res.written = completeImages(res.ops)
 	})
 	if ex.Outcome != vsched.Complete {
 		viol("panic", "dhcp-"+ex.Outcome.String(), fmt.Sprintf("execution ended with %s: %v blocked=%v", ex.Outcome, firstLine(ex.Panics), ex.Blocked))
@@ -580,6 +604,7 @@ type dhcpReplay struct {
 	Hist   []int    `json:"hist"`
 	Events []string `json:"events"`
 	Mode   int      `json:"mode"`
+	Layout int      `json:"layout"`
 	Class  string   `json:"class"`
 	Image  string   `json:"image,omitempty"`
 	Sub    string   `json:"sub,omitempty"`
@@ -596,17 +621,45 @@ func dhcpSeeds(alpha []dEvent) [][]int {
 	}
 	d1, d2, d3 := find("discover", 0, "none"), find("discover", 1, "none"), find("discover", 2, "none")
 	r1, r2, r3 := find("request", 0, "last"), find("request", 1, "last"), find("request", 2, "last")
-	return [][]int{
-		{d1, r1},                           // one client bound
-		{d1, r1, d2, r2},                   // two clients bound
-		{d1, d2},                           // two open offers
-		{d1, r1, d2, r2, d3, r3},           // three clients bound: the pool is almost exhausted
-		{find("capture", 0, ""), d1, r1},   // a captured client bound in the netfilter subnet
-		{d1, find("discover", 1, "other")}, // a second client asked for the address that is on offer to the first
-		{d1, r1, find("tick", 0, "")},      // a lease that has expired
-		{d1, find("discover", 1, "other"), r2},                       // the address on offer to the first client was acknowledged to the second
-		{d1, find("tick", 0, ""), find("discover", 1, "other"), r2}, // same, after the first client's offer ran out
+	tick2h, tickMin := -1, -1
+	for i, e := range alpha {
+		if e.Kind == "tick" && e.Dur == 2*time.Hour {
+			tick2h = i
+		}
+		if e.Kind == "tick" && e.Dur == time.Minute {
+			tickMin = i
+		}
 	}
+	return [][]int{
+		{d1, r1},                               // one client bound
+		{d1, r1, d2, r2},                       // two clients bound
+		{d1, d2},                               // two open offers
+		{d1, r1, d2, r2, d3, r3},               // three clients bound: the pool is almost exhausted
+		{find("capture", 0, ""), d1, r1},       // a captured client bound in the netfilter subnet
+		{d1, find("discover", 1, "other")},     // a second client asked for the address that is on offer to the first
+		{d1, r1, find("tick", 0, "")},          // a lease that has expired
+		{d1, find("discover", 1, "other"), r2}, // the address on offer to the first client was acknowledged to the second
+		{d1, find("tick", 0, ""), find("discover", 1, "other"), r2}, // same, after the first client's offer ran out
+		{d1, r1, tick2h, tickMin},                                   // a bound client that was silent for two hours: the session has purged its host entry
+		{d1, r1, tick2h, find("request", 0, "renew")},               // a lease renewed half way through its life time
+	}
+}
+
+type layoutMode struct {
+	layout int
+	mode   dhcp4.Mode
+}
+
+// layoutsAndModes: both address plans for the first mode, the first plan for the others.
+func layoutsAndModes(modes []dhcp4.Mode) []layoutMode {
+	var l []layoutMode
+	for i, m := range modes {
+		l = append(l, layoutMode{0, m})
+		if i == 0 {
+			l = append(l, layoutMode{1, m})
+		}
+	}
+	return l
 }
 
 func dhcpExplore(c *core.Ctx, class string) {
@@ -622,14 +675,16 @@ func dhcpExplore(c *core.Ctx, class string) {
 		depth = v
 	}
 	alpha := dhcpAlphabet()
-	for _, mode := range modes {
-		o := dhcpOpts{mode: mode}
+	for _, lm := range layoutsAndModes(modes) {
+		mode := lm.mode
+		o := dhcpOpts{mode: mode, layout: lm.layout}
+		setLayout(o.layout)
 		ex := &eseq.Explorer{NEvents: len(alpha), Depth: depth, Shard: c.Shard, NShards: c.NShards, Seeds: dhcpSeeds(alpha)}
 		if c.Deadline > 0 {
 			ex.Deadline = time.Unix(c.Deadline-20, 0)
 		}
 		ex.Run = func(hist []int) eseq.StepResult {
-			c.Progress(fmt.Sprintf("mode=%d %v", mode, hist))
+			c.Progress(fmt.Sprintf("layout=%d mode=%d %v", o.layout, mode, hist))
 			r := runDHCP(alpha, hist, o)
 			sr := eseq.StepResult{Key: r.key, Predicted: r.predicted}
 			if n := len(r.steps); n > 0 {
@@ -653,12 +708,16 @@ func dhcpExplore(c *core.Ctx, class string) {
 			}
 			if class == "persist" && len(sr.Violations) == 0 {
 				for _, v := range dhcpPersistence(c, alpha, hist, o, r) {
-					sr.Violations = append(sr.Violations, v)
+					if strings.HasPrefix(v, "persist|corrupt-") {
+						sr.Reports = append(sr.Reports, v) // judged per image; the history is still extended
+					} else {
+						sr.Violations = append(sr.Violations, v)
+					}
 				}
 			}
 			return sr
 		}
-		ex.OnState = func(h uint64) { c.DistinctHash(h ^ uint64(mode)*0x9e3779b97f4a7c15) }
+		ex.OnState = func(h uint64) { c.DistinctHash(h ^ uint64(int(mode)+16*o.layout)*0x9e3779b97f4a7c15) }
 		ex.OnViolation = func(hist []int, r eseq.StepResult) {
 			for _, v := range r.Violations {
 				parts := strings.SplitN(v, "|", 3)
@@ -666,8 +725,8 @@ func dhcpExplore(c *core.Ctx, class string) {
 				for _, i := range hist {
 					evs = append(evs, alpha[i].String())
 				}
-				c.Violate(parts[0]+"|"+parts[1], fmt.Sprintf("mode %d history %v: %s", mode, evs, parts[2]),
-					dhcpReplay{Kind: "dhcp", Hist: hist, Events: evs, Mode: int(mode), Class: class})
+				c.Violate(parts[0]+"|"+parts[1], fmt.Sprintf("address plan %d mode %d history %v: %s", o.layout, mode, evs, parts[2]),
+					dhcpReplay{Kind: "dhcp", Hist: hist, Events: evs, Mode: int(mode), Layout: o.layout, Class: class})
 			}
 		}
 		ex.Explore()
@@ -683,7 +742,7 @@ func dhcpExplore(c *core.Ctx, class string) {
 			c.Cap(ex.CapHit)
 		}
 	}
-	c.Res.Bound = fmt.Sprintf("depth %d from the initial state and from %d scripted non-initial states; alphabet of %d events; %d operating mode(s)", depth, len(dhcpSeeds(alpha)), len(alpha), len(modes))
+	c.Res.Bound = fmt.Sprintf("depth %d from the initial state and from %d scripted non-initial states; alphabet of %d events; %d operating mode(s); 2 address plans for the first mode", depth, len(dhcpSeeds(alpha)), len(alpha), len(modes))
 	var names []string
 	for _, e := range alpha {
 		names = append(names, e.String())
@@ -694,9 +753,10 @@ func dhcpExplore(c *core.Ctx, class string) {
 
 func dhcpAssumptions() []string {
 	return []string{
-		"deliberately small pools: home LAN 192.168.0.0/29 (router .1, this host .6), netfilter subnet 192.168.0.4/30; three clients (c3 identifies itself with a client-id option); lease time 4h",
+		"deliberately small pools, two address plans: home LAN 192.168.0.0/29 with (router .1, this host .6, netfilter subnet 192.168.0.4/30) and with (router .5, this host .2, netfilter subnet 192.168.0.0/30, sharing the network address of the home LAN); three clients (c3 identifies itself with a client-id option); lease time 4h",
 		"the lease observer is built from the replies only: an acknowledgement ends by DECLINE/RELEASE from its owner, a NAK, a later ACK of another address, or expiry in virtual time",
-		"real handler + real session under the sequential scheduler with virtual time; the lease file lives on an in-memory device that logs every write",
+		"real handler + real session under the sequential scheduler with virtual time; the lease file lives on an in-memory device that logs every operation",
+		"crash model: process crash - operations take effect in program order, a crash can fall between any two operations or tear a write at any byte; loss or reordering of completed but unsynced writes (power failure) is not modelled",
 	}
 }
 
@@ -706,7 +766,7 @@ func dhcpReplayer(data []byte) string {
 		return ""
 	}
 	alpha := dhcpAlphabet()
-	o := dhcpOpts{mode: dhcp4.Mode(r.Mode)}
+	o := dhcpOpts{mode: dhcp4.Mode(r.Mode), layout: r.Layout}
 	res := runDHCP(alpha, r.Hist, o)
 	if os.Getenv("VERIF_DEBUG") != "" {
 		for i, st := range res.steps {
@@ -721,7 +781,13 @@ func dhcpReplayer(data []byte) string {
 	}
 	if r.Class == "persist" {
 		c := core.NewCtx("C18", "thorough", "replay", 0, 1, "")
-		if v := dhcpPersistence(c, alpha, r.Hist, o, res); len(v) > 0 {
+		v := dhcpPersistence(c, alpha, r.Hist, o, res)
+		for _, x := range v { // a history can carry several findings: reproduce the one this artefact is about
+			if ReplaySig != "" && strings.HasPrefix(x, ReplaySig+"|") {
+				return x
+			}
+		}
+		if len(v) > 0 && ReplaySig == "" {
 			return v[0]
 		}
 	}
